@@ -1,5 +1,6 @@
 import Infretis.Model.RepexProto
 import Infretis.Model.JobDraws
+import Infretis.Model.RepexDisk
 open Infretis Infretis.Proto Infretis.Repex Infretis.JobDraws
 
 /-
@@ -14,6 +15,16 @@ Driver of C07: the stateful replica-exchange protocol of `Infretis.Repex.handle`
   engcall <kind> <modvel|propB|propF|dump> <-|entropy:key,key,…>
       the draws of ONE engine call of that class with `engine.rgen` as given (`-` = attribute absent)
       answer: ok <trace>  or  err:norgen
+  tmdprop <verlet|velocityverlet|langevinoverdamped|langevininertia> <-|entropy:key,…>
+      `JobDraws.tmdPropagate`: ran <draws> | typeerror <draws> | norgen
+  disk
+      the image `./restart.toml` holds according to `Model/RepexDisk.lean`: written by the last `treat` (the state
+      `treat_output` built, BEFORE the next `prep`) or by a `loop` that answered false at cstep >= tsteps; `-` = no file
+  restartdisk <workers> <tsteps> <k engine-occ sizes>
+      `restartFromDisk`: a new process from the image on disk (weights recomputed from the stored paths = the
+      weights the old process knew); answers ok / err:…; the state is then the restored one, no jobs, empty engine table
+  mcdims
+      `idle=<idleCount> dims=<mcDims>`: the blocks `self.prob` would send to `random_prob` in the current state
 -/
 
 def parseKind? : String → Option EngKind
@@ -219,6 +230,18 @@ def parseCall? : String → Option EngCall
   | "modvel" => some .modvel | "propB" => some (.propagate true) | "propF" => some (.propagate false)
   | "dump" => some .dump | _ => none
 
+/-- driver state of C07: the shared one plus the file on disk -/
+structure D7 where
+  d : DState
+  disk : Option Image := none
+
+def showImage (im : Image) : String :=
+  s!"cstep={im.cstep} | locked=" ++
+    ";".intercalate ((im.locked.zip (im.lockedOrd.map some ++ List.replicate im.locked.length none)).map
+      (fun ((es, ps), o) => showNats es ++ ":" ++ showNats ps ++ ":" ++ showON o)) ++
+    " | spawned=" ++ showON im.spawnedRec ++ s!" | counter={im.counter} | active=" ++
+    ",".intercalate (im.active.map showON) ++ s!" | trajnum={im.trajNum} | seed={im.seed}"
+
 def handle7 (d : DState) (toks : List String) : DState × String :=
   match toks with
   | "jobdraws" :: pin :: n :: rest =>
@@ -232,6 +255,17 @@ def handle7 (d : DState) (toks : List String) : DState × String :=
         | .ok o => ({ d with eng := o.tbl }, showOut o)
       | _, _, _ => (d, "bad-op")
     | _, _ => (d, "bad-op")
+  | ["tmdprop", integ, r] =>
+    let i? : Option TmdIntegrator := match integ with
+      | "verlet" => some .verlet | "velocityverlet" => some .velocityVerlet
+      | "langevinoverdamped" => some .langevinOverdamped | "langevininertia" => some .langevinInertia | _ => none
+    match i?, parseStream? r with
+    | some i, some r =>
+      (d, match tmdPropagate i r with
+          | .ran tr => "ran " ++ " ".intercalate (tr.map (fun t => showWhat t.what))
+          | .typeError tr => "typeerror " ++ " ".intercalate (tr.map (fun t => showWhat t.what))
+          | .noRgen => "norgen")
+    | _, _ => (d, "bad-op")
   | ["engcall", kind, call, r] =>
     match parseKind? kind, parseCall? call, parseStream? r with
     | some k, some c, some r =>
@@ -241,16 +275,44 @@ def handle7 (d : DState) (toks : List String) : DState × String :=
     | _, _, _ => (d, "bad-op")
   | _ => Infretis.Repex.handle d toks
 
-partial def mainLoop7 (h out : IO.FS.Stream) (d : DState) : IO Unit := do
+/-- the ops that know the file on disk; everything else goes to `handle7` -/
+def handle7d (x : D7) (toks : List String) : D7 × String :=
+  match toks with
+  | ["disk"] => (x, match x.disk with | none => "-" | some im => showImage im)
+  | ["mcdims"] =>
+    let dims := mcDims x.d.s
+    (x, s!"idle={idleCount x.d.s} dims=" ++ (if dims.isEmpty then "-" else showNats dims))
+  | "restartdisk" :: w :: ts :: rest =>
+    match parseNat? w, parseNat? ts, takeList parseNat? rest with
+    | some w, some ts, some (sizes, []) =>
+      let p : Proc := { y := { s := x.d.s, jobs := x.d.jobs }, disk := x.disk }
+      let wts := x.d.s.wts
+      match restartFromDisk p x.d.s.n w ts (sizes.map (fun k => List.replicate k (-1))) x.d.s.ensEng
+              (fun pn => (wts.lookup pn).getD []) with
+      | .error e => (x, showErr e)
+      | .ok p' => ({ d := { s := p'.y.s, jobs := [], eng := [] }, disk := p'.disk }, "ok")
+    | _, _, _ => (x, "bad-op")
+  | _ =>
+    let (d', ans) := handle7 x.d toks
+    let disk' : Option Image :=
+      match toks with
+      | "treat" :: _ => if ans.startsWith "new=" then some (persist d'.s) else x.disk
+      | ["loop"] => if ans.startsWith "false" then (endWrite { y := { s := d'.s, jobs := d'.jobs }, disk := x.disk }).disk
+                    else x.disk
+      | "init" :: _ => x.disk
+      | _ => x.disk
+    ({ d := d', disk := disk' }, ans)
+
+partial def mainLoop7 (h out : IO.FS.Stream) (d : D7) : IO Unit := do
   let line ← h.getLine
   if line.isEmpty then
     out.flush
     return ()
   let l := (line.dropEndWhile (fun c => c = '\n' || c = '\r')).toString
   let toks := (l.splitOn " ").filter (fun t => t ≠ "")
-  let (d', ans) := handle7 d toks
+  let (d', ans) := handle7d d toks
   out.putStrLn ans
   mainLoop7 h out d'
 
 def main : IO Unit := do
-  mainLoop7 (← IO.getStdin) (← IO.getStdout) { s := emptySt }
+  mainLoop7 (← IO.getStdin) (← IO.getStdout) { d := { s := emptySt } }
